@@ -67,6 +67,8 @@ def gen(rng, knobs):
             batch.append(h.regular())
         rng.shuffle(batch)
         h.ops.append(["cadd", batch])
+    for _ in range(rng.choice([0, 0, 1, 2])):
+        h.ops.insert(rng.randint(1, len(h.ops)), ["restart"])          # the relay restarts somewhere in the history
     pools = {}
     if backend == "sql" and rng.random() < 0.5:
         pools = {"num_concurrent_adds": rng.choice([2, 4, 8])}
@@ -227,13 +229,14 @@ def run(case, sim):
     w, obs = store.run_store(sim, case["backend"], case["ops"], full_gc=True,
                              storage_opts=case.get("storage_opts") or None)
     viol, nontrivial = check(obs, case["backend"])
+    viol += oracles.restart_changes(obs, case["backend"])
     seen, v2 = set(), []
     for v in viol:
         if v["sig"] not in seen:
             seen.add(v["sig"])
             v2.append(v)
-    shape = [(o[1]["pubkey"][:4], o[1]["kind"], dclass(o[1]), o[1]["created_at"]) if o[0] != "cadd" else
-             ("cadd", tuple((e["kind"], e["created_at"]) for e in o[1])) for o in case["ops"]]
+    shape = [(o[1]["pubkey"][:4], o[1]["kind"], dclass(o[1]), o[1]["created_at"]) if o[0] == "add" else
+             ("cadd", tuple((e["kind"], e["created_at"]) for e in o[1])) if o[0] == "cadd" else o[0] for o in case["ops"]]
     return {"violations": v2, "nontrivial": nontrivial,
             "probes": {"backend_" + case["backend"]: 1, "had_predecessor": int(nontrivial),
                        "errors": sum(1 for o in obs if o["res"][0] == "err")},
